@@ -70,7 +70,10 @@ FIRST_VALUES = {"action_type": ["app:task", "sys:io:read", "t", "\u0442\u0438\u0
                 "action_status": ["started", "succeeded", "failed"]}
 LEVELS = [[1], [2], [1, 1], [3, 2], [2, 1, 4, 1], [7, 10, 3], [12], [1, 2, 3, 4, 5, 6]]
 STAMPS = [1700000000.0, 1700000000.123456, 0.0, 0.5, 1000000000.000001, 1234567890.9999996, 1700000000, 4102444800.25, 86399.999999,
-          951782400.5, 1790972085.070434, 1.0, 1500000000.000123, 978307199.999999, 1e9 + 1e-6]
+          951782400.5, 1790972085.070434, 1.0, 1500000000.000123, 978307199.999999, 1e9 + 1e-6,
+          # the rounding boundary (utcfromtimestamp rounds to the nearest microsecond, possibly into the next second), small negative, year 9999
+          1443193754.9999998, 1443193754.9999995, 1443193754.9999996, 1443193754.9999999, 1443193754.0000004, 1443193754.0000005,
+          0.9999996, 59.9999999, 86399.9999997, 1443193754.4999996, -0.5, -1.25, -1e-07, 253402300799.5, 2, 1443193755]
 
 
 def draw_uuid(rng):
@@ -136,7 +139,9 @@ def parse_header(msg, text):
     try:
         dt = datetime.fromisoformat(m.group(4).replace(" ", "T"))
         us = (dt - EPOCH) // timedelta(microseconds=1)
-        if abs(Fraction(us) - Fraction(msg["timestamp"]) * 1000000) >= 1:
+        # "to the microsecond" = the logged instant ROUNDED to the nearest microsecond (what utcfromtimestamp does; at an exact tie
+        # either neighbour -- the library rounds the binary fraction, half to even): truncation is off by more than that
+        if abs(Fraction(us) - Fraction(msg["timestamp"]) * 1000000) > Fraction(501, 1000):
             errs.append("header: timestamp %r shown as %s, not the same instant to the microsecond" % (msg["timestamp"], m.group(4)))
     except ValueError:
         errs.append("header: timestamp %r is not a date" % m.group(4))
@@ -530,11 +535,20 @@ def sweep_messages():
     return msgs
 
 
+# lines for eliot.filter only: what Python's json (hence Eliot without orjson) writes for floats that are not numbers, integers far
+# beyond 64 bits, and a surrogate pair / lone surrogates in escaped form
+FILTER_EXTRA_LINES = ['{"task_uuid":"u","task_level":[1],"timestamp":1.5,"x":NaN}', '{"task_uuid":"u","task_level":[1],"timestamp":1.5,"x":[Infinity,-Infinity]}',
+                      '{"task_uuid":"u","task_level":[1],"timestamp":1.5,"n":18446744073709551617,"m":-9223372036854775809,"k":[%d]}' % (10 ** 40),
+                      '{"task_uuid":"u","task_level":[1],"timestamp":1.5,"n":9223372036854775808}', '{"task_uuid":"u","task_level":[1],"timestamp":1.5,"s":"\\ud83d\\ude00 \\ud800"}',
+                      '{"task_uuid":"u","task_level":[1],"timestamp":1.5,"f":1e400}', '{"task_uuid":"u","task_level":[1],"timestamp":1.5,"f":0.1,"g":1E2,"h":-0.0}']
+
+
 def sweep_chunk(_):
     """Function level of the sweep: pretty_format / compact_format on every sweep message, eliot.filter identity on them."""
     msgs = sweep_messages()
     lines = [json.dumps(m) for m in msgs]
-    res = exec_jobs({"format": msgs, "filter": [{"expr": "J", "lines": lines}, {"expr": "dict(J)", "lines": lines}]})
+    fjobs = [{"expr": e, "lines": [l]} for l in lines + FILTER_EXTRA_LINES for e in ("J", "dict(J)")]       # one line per run: no witness hides another
+    res = exec_jobs({"format": msgs, "filter": fjobs})
     out = {"n": len(msgs), "viol": [], "f6": 0, "drift": [], "keys": [], "sample": None, "lines": [], "filter_viol": []}
     for i, (msg, r) in enumerate(zip(msgs, res["format"])):
         viol, f6, drift = judge_formats(msg, r)
@@ -544,11 +558,15 @@ def sweep_chunk(_):
             out["viol"].append({"clause": clause, "detail": detail, "message": msg, "record": "witness sweep"})
         out["drift"].extend(drift[:1])
         out["keys"].append((["sweep", i], True))
-    for fr, expr in zip(res["filter"], ("J", "dict(J)")):
+    for fr, job in zip(res["filter"], fjobs):
         for how in ("run", "run_text", "main"):
-            errs = judge_filter_output(fr[how], fr[how + "_exc"], [(m, "whole") for m in msgs])
+            errs = judge_filter_output(fr[how], fr[how + "_exc"], [(json.loads(job["lines"][0]), "whole")])
             for e in errs[:1]:
-                out["filter_viol"].append({"clause": "eliot.filter %s (%s) on the witness sweep: %s" % (expr, how, e), "expr": expr, "lines": lines})
+                out["filter_viol"].append({"clause": "eliot.filter %s (%s) on a line of the witness sweep: %s" % (job["expr"], how, e),
+                                           "expr": job["expr"], "lines": job["lines"]})
+                break
+            if errs:
+                break
     out["drift"] = sorted(set(out["drift"]))[:3]
     return out
 
@@ -596,6 +614,20 @@ PP_CODE = "import sys; sys.argv = ['eliot-prettyprint'] + %r; from eliot.prettyp
 MISSING = [b"{}", b'{"a": 1}', b'{"task_uuid": "u", "task_level": [1]}', b'{"task_uuid": "u", "timestamp": 1.5}',
            b'{"task_level": [1], "timestamp": 1.5, "message_type": "m"}', b'{"task_uuid": "u"}', b'{"timestamp": 0}',
            b'{"Task_uuid": "u", "task_level": [1], "timestamp": 1.5}', b'{"msg": "\xc3\xbc", "nested": {"task_uuid": "u", "task_level": [1], "timestamp": 1}}']
+MISTYPED = [b'{"task_uuid":"u","task_level":5,"timestamp":1}', b'{"task_uuid":"u","task_level":[1],"timestamp":"x"}',
+            b'{"task_uuid":"u","task_level":[1],"timestamp":null,"message_type":"m"}', b'{"task_uuid":"u","task_level":[1],"timestamp":1e20}',
+            b'{"task_uuid":"u","task_level":[1],"timestamp":NaN}', b'{"task_uuid":"u","task_level":[1],"timestamp":-1e15}',
+            b'{"task_uuid":"u","task_level":[1],"timestamp":true}', b'{"task_uuid":"u","task_level":[2],"timestamp":false,"x":1}',
+            b'{"task_uuid":"u","task_level":[1],"timestamp":1e400}', b'{"task_uuid":"u","task_level":[1],"timestamp":-1e300}',
+            b'{"task_uuid":"u","task_level":[1],"timestamp":Infinity}', b'{"task_uuid":"u","task_level":[1],"timestamp":-62135596801}',
+            b'{"task_uuid":"u","task_level":[1],"timestamp":"1.5"}', b'{"task_uuid":"u","task_level":[1],"timestamp":[]}',
+            b'{"task_uuid":"u","task_level":[1],"timestamp":{}}', b'{"task_uuid":"u","task_level":[1],"timestamp":253402300800}',
+            b'{"task_uuid":5,"task_level":[1],"timestamp":1}', b'{"task_uuid":null,"task_level":[1],"timestamp":1.5,"action_type":"a","action_status":"started"}',
+            b'{"task_uuid":["u"],"task_level":[],"timestamp":1}', b'{"task_uuid":{"a":1},"task_level":[1],"timestamp":1}', b'{"task_uuid":true,"task_level":[1],"timestamp":1}',
+            b'{"task_uuid":"u","task_level":[],"timestamp":1}', b'{"task_uuid":"u","task_level":["a"],"timestamp":1}', b'{"task_uuid":"u","task_level":[[1]],"timestamp":1}',
+            b'{"task_uuid":"u","task_level":null,"timestamp":1}', b'{"task_uuid":"u","task_level":"ab","timestamp":1}', b'{"task_uuid":"u","task_level":{"1":2},"timestamp":1}',
+            b'{"task_uuid":"u","task_level":1.5,"timestamp":1}', b'{"task_uuid":"u","task_level":[1.5, null],"timestamp":1}', b'{"task_uuid":"u","task_level":true,"timestamp":1}',
+            b'{"task_uuid":null,"task_level":null,"timestamp":null}', b'{"timestamp":"2026-10-02T12:00:00Z","task_level":"/1","task_uuid":"u","message_type":"other:tool"}']
 SCALARS = [b"5", b"-1.5e3", b'"a string"', b"true", b"false", b"0", b'""', b"12345678901234567890123", b'"task_uuid"', b"1.0", b' 7 ',
            b'"\\ud83d"', b'"\\u2028"', b"1" * 400, b'"100% {}"']
 ARRAYS = [b"[]", b"[1, 2]", b'[{"task_uuid":"u","task_level":[1],"timestamp":1.0}]', b"[[]]", b'["task_uuid","task_level","timestamp"]',
@@ -608,7 +640,7 @@ TEXTS = [b"hello", b"{'a': 1}", b'{"a": 1', b"Traceback (most recent call last):
          b"[" * 3000, b'{"a":' * 2500]        # nested too deeply for the decoder (RecursionError, fixed in 0a... "fix: eliot-prettyprint survives...")
 BADUTF8 = [b"\xff\xfe", b"\x80abc", b'{"task_uuid": "\xff"}', b"caf\xe9", b"\xc3", b"\xed\xa0\x80", b"\xf8\x88\x80\x80\x80", b'"\xe9"', b"{\xff}"]
 EMPTIES = [b"", b"   ", b"\t", b"\r"]
-FOREIGN = {"missing": MISSING, "scalar": SCALARS, "array": ARRAYS, "null": NULLS, "text": TEXTS, "badutf8": BADUTF8, "empty": EMPTIES}
+FOREIGN = {"missing": MISSING, "mistyped": MISTYPED, "scalar": SCALARS, "array": ARRAYS, "null": NULLS, "text": TEXTS, "badutf8": BADUTF8, "empty": EMPTIES}
 PHRASE = {"NotJSON": "Not JSON", "NotEliot": "Not an Eliot message"}
 
 
@@ -655,11 +687,13 @@ def judge_pp_block(fmt, line, kind, block):
             errs, order = check_pretty(line["msg"], block)
         viol.extend(errs)
     else:
+        # "RenderOrNotEliot" (an object with the required keys but ill-typed values): either a rendering or a report -- some block
         if block.strip() == "":
-            viol.append("nothing is reported for a line that is %s" % ("not JSON" if kind == "NotJSON" else "not an Eliot message"))
+            viol.append("nothing is written for a line that is %s" % {"NotJSON": "not JSON", "NotEliot": "not an Eliot message"}.get(
+                kind, "an object with ill-typed required fields (neither rendered nor reported)"))
         elif not block.endswith("\n"):
             viol.append("the report is not terminated by a line break: %r" % block[-80:])
-        elif PHRASE[kind] not in block:
+        elif kind in PHRASE and PHRASE[kind] not in block:
             drift.append("eliot-prettyprint reports a %s line as %r, modelled wording %r" % (line["cls"], block.strip()[:60], PHRASE[kind]))
     return viol, drift
 
@@ -833,7 +867,7 @@ def run(prop, tier):
     _t("start")
     quick = tier == "quick"
     rep.cov["rule"] = ("cases = every record TLC prints for Readers.tla: (layout) which of action_type/message_type/action_status are present x "
-                       "sets of <=3 further fields (10 field-name classes x 9 value classes); (pp) every stream of <=MaxLines lines over 8 "
+                       "sets of <=3 further fields (10 field-name classes x 9 value classes); (pp) every stream of <=MaxLines lines over 9 "
                        "line classes x {pretty, compact}; (filter) every stream of <=MaxLines lines over 6 message classes x 12 expression "
                        "classes; each instantiated with seeded concrete witnesses and executed on the real functions / command-line entry "
                        "points, plus messages produced by real Eliot calls.  distinct = distinct abstract record; non-trivial = at least "
@@ -1058,8 +1092,8 @@ def run(prop, tier):
                                    "expected": [[i - 1, what] for i, what in c["out"]], "field_msgs": c["msgs"], "clause": errs[0][:300]})
                     break
         # the witness sweep through the command: identity and the copying expression on every sweep message
-        smsgs = sweep_messages()
-        slines = [json.dumps(m) for m in smsgs]
+        slines = [json.dumps(m) for m in sweep_messages()] + FILTER_EXTRA_LINES
+        smsgs = [json.loads(l) for l in slines]
         for expr in ("J", "dict(J)"):
             text, exc = run_filter_cli(expr, slines)
             rep.count_case(["filter-sweep", expr], True)
@@ -1112,7 +1146,8 @@ def replay(prop, obj, path):
                 bad.append("the output is not the sequence of the blocks of its lines")
             for l, s in zip(lines, singles):
                 if s[0] == 0:
-                    kindl = "Render" if l["cls"] == "eliot" else ("NotEliot" if l["cls"] in ("missing", "scalar", "array", "null") else "NotJSON")
+                    kindl = "Render" if l["cls"] == "eliot" else ("RenderOrNotEliot" if l["cls"] == "mistyped" else
+                                                                     ("NotEliot" if l["cls"] in ("missing", "scalar", "array", "null") else "NotJSON"))
                     v, _ = judge_pp_block(fmt, l, kindl, s[1].decode("utf-8", "replace"))
                     bad.extend(v)
     elif kind == "filter":
